@@ -156,6 +156,7 @@ func main() {
 		r.gidSamples(24, "after-chains")
 		r.forkStates("forkstate", 0, fsRoutes, 5, "cases_forkstate")
 		r.forkStacks()
+		r.rootFamily(lib.NewRng(lib.NewRng(cfg.Seed ^ 0x726f6f74).Next()))
 		r.gidSamples(24, "after-forkstate")
 		r.random(lib.NewRng(lib.NewRng(cfg.Seed).Next()))
 		r.gidSamples(24, "after-random")
@@ -180,6 +181,10 @@ func (r *runner) replay() {
 		lib.Remarshal(in, &x)
 		if x.Kind == "c14-tls" {
 			r.replayTLS(in)
+			continue
+		}
+		if x.Kind == "c14-root" {
+			r.replayRoot(in)
 			continue
 		}
 		if x.Kind == "c14-resident" {
